@@ -38,6 +38,17 @@ def _getitem(obj: Any, key: object, default: object = None) -> Any:
         return default
 
 
+def _property(obj: Any, key: object) -> Any:
+    """Helper for the compact filter.
+
+    Same as obj[key], but a missing key is the same as a `None` value.
+    """
+    try:
+        return obj[key]
+    except KeyError:
+        return None
+
+
 class _FilterFilter:
     """Base class for filters that filter array-like objects."""
 
@@ -170,7 +181,7 @@ class CompactFilter:
 
         if key is not None:
             try:
-                return [itm for itm in left if itm[key] is not None]
+                return [itm for itm in left if _property(itm, key) is not None]
             except TypeError as err:
                 raise LiquidTypeError(
                     f"can't read property '{key}'", token=None
